@@ -1023,9 +1023,17 @@ def run_case(env: Env, ctx, role, raw, info, seed_name):
             wf = True
         except Exception:  # noqa: BLE001
             root, wf = None, False
+        verdict = None
+        if wf:
+            try:
+                verdict = env.validator.validate(root)
+            except etree.XMLSchemaError:   # libxml2 "internal error" (e.g. entity reference nodes in the tree): no verdict
+                ctx.count('validation.validator_internal_error')
         if not wf:
             ctx.witness('validation.malformed_request_accepted', 'a request body that is not well-formed XML got a success response', detail)
-        elif not env.validator.validate(root):
+        elif verdict is None:
+            pass
+        elif not verdict:
             ctx.count('validation.schema_invalid_request_accepted')
             ctx.witness('validation.invalid_request_accepted', 'a request that the independent XSD validation rejects got a success response: '
                         + str(env.validator.error_log.last_error)[:200], {**detail, 'doc': doc[:1500]})
